@@ -179,6 +179,23 @@ class BaseNode(Node):
         else:
             return value
 
+    def raw_value(self):
+        """ Current value written as a raw value (as a definition would state it, in units 'units_raw')
+        """
+        if not isinstance(self.value, Type):
+            return self.value_raw
+        value = self.value.value
+        if value is None:
+            return Keyword.NONE
+        elif isinstance(value, str):
+            return value
+        elif isinstance(value, (list, np.ndarray)):
+            return json.dumps(np.array(value, dtype=self.dtype).tolist())
+        elif isinstance(value, (bool, np.bool_)):
+            return Keyword.TRUE if value else Keyword.FALSE
+        else:
+            return str(self.dtype(value))
+
     def inject_value(self, env:Environment, node=None):
         """ Inject value from a remote source
 
@@ -198,7 +215,7 @@ class BaseNode(Node):
         if isinstance(nodes, str):   # block import
             node.value_raw = nodes
         else:                        # node import
-            node.value_raw = nodes[0].value_raw
+            node.value_raw = nodes[0].raw_value()
             if not node.units_raw:
                 node.units_raw = nodes[0].units_raw
         
